@@ -113,3 +113,184 @@ def outcome(g):
     if g.xml_error:
         return "ill-formed-xml"
     return "no-xml:rc=%s" % g.rc
+
+
+# ---------------------------------------------------------------------------- results in physical terms
+
+def _axis_map(fr):
+    """file axis name -> (physical axis, sign)"""
+    m = {}
+    for name, c in (("x", fr.axes[0]), ("y", fr.axes[1])):
+        m[name] = {"n": ("N", 1.0), "s": ("N", -1.0), "e": ("E", 1.0), "w": ("E", -1.0)}[c]
+    m["z"] = ("H", 1.0)
+    return m
+
+
+def physical_result(R, fr):
+    """Normalise a parsed adjustment to the physical frame so that results of equivalent inputs can be
+    compared: points {id: {E,N,H}}, residuals/stdevs as multisets keyed by observation identity,
+    statistics, ellipses (semi-axes + physical azimuth of the major axis mod 200 gon), covariance of the
+    adjusted coordinates keyed by ((id, axis), (id, axis))."""
+    inv = {v: k for k, v in fr.idmap.items()}
+    am = _axis_map(fr)
+    rh = (fr.angles == "right-handed")
+    out = dict(points=physical_points(R, fr), ss=R["sum_of_squares"], dof=R["dof"], defect=R["defect"],
+               equations=R["equations"], unknowns=R["unknowns"], aposteriori=R["aposteriori"],
+               iterations=R["iterations"], connected=R["connected"])
+    obs = {}
+    for o in R["observations"]:
+        tag = o["tag"]
+        ang = tag in ("direction", "angle", "azimuth", "zenith-angle")
+        r = o["adj"] - o["obs"]
+        if ang:
+            r = ((r + 200.0) % 400.0 - 200.0) * 10000.0
+            if rh and tag != "zenith-angle":
+                r = -r
+        else:
+            r *= 1000.0
+        f = inv.get(o.get("from", o.get("id")), o.get("from", o.get("id")))
+        t = o.get("to")
+        t = inv.get(t, t) if t is not None else None
+        if tag == "angle":
+            key = ("angle", f, inv.get(o["left"], o["left"]), inv.get(o["right"], o["right"]))
+        elif tag == "distance":
+            key = ("distance",) + tuple(sorted((str(f), str(t))))
+        elif tag in ("dx", "dy", "dz"):
+            ax, sg = am[tag[1]]
+            key = ("vec", f, t, ax)
+            r *= sg
+        elif tag.startswith("coordinate-"):
+            ax, sg = am[tag[-1]]
+            key = ("coord", f, ax)
+            r *= sg
+        else:
+            key = (tag, f, t)
+        obs.setdefault(key, []).append((r, o.get("stdev"), o.get("qrr"), o.get("f")))
+    for k in obs:
+        obs[k].sort(key=lambda t: (round(t[0], 3), t[1]))
+    out["obs"] = obs
+    ell = {}
+    for pid, (a, b, alpha) in R.get("ellipses", {}).items():
+        # gama's alpha is a *bearing* in the user's own terms: measured from the +x axis in the sense of the
+        # user's horizontal angles (clockwise for left-handed angles).  Physical azimuth = azimuth of +x +/- alpha.
+        az_x = {"n": 0.0, "e": 100.0, "s": 200.0, "w": 300.0}[fr.axes[0]]
+        az = (az_x + (-1.0 if rh else 1.0) * alpha / netgen.GON) % 200.0
+        ell[inv.get(pid, pid)] = (a, b, az)
+    out["ellipses"] = ell
+    cov = {}
+    if R.get("cov_dim"):
+        C = xmlout.cov_matrix(R)
+        lab = xmlout.cov_labels(R)
+        for i, (p1, a1) in enumerate(lab):
+            if p1 == "orientation":
+                continue
+            for j, (p2, a2) in enumerate(lab):
+                if p2 == "orientation" or j < i:
+                    continue
+                v = C[i, j]
+                if v != v:
+                    continue
+                ax1, s1 = am[a1]
+                ax2, s2 = am[a2]
+                k1, k2 = (inv.get(p1, p1), ax1), (inv.get(p2, p2), ax2)
+                if k2 < k1:
+                    k1, k2 = k2, k1
+                cov[(k1, k2)] = v * s1 * s2
+    out["cov"] = cov
+    return out
+
+
+def compare_physical(A, B, tol_m=1e-7, rel=1e-6, what=("points", "obs", "stats", "ellipses", "cov")):
+    """-> list of (field key, message) for every disagreement between two physical results."""
+    bad = []
+    if "stats" in what:
+        for k in ("dof", "defect", "equations", "unknowns"):
+            if A[k] != B[k]:
+                bad.append(("stats:" + k, "%s: %s vs %s" % (k, A[k], B[k])))
+        for k in ("ss", "aposteriori"):
+            a, b = A[k], B[k]
+            # 8 significant digits printed
+            if abs(a - b) > rel * max(abs(a), abs(b)) + 1e-7 * max(abs(a), abs(b)) + 1e-12:
+                bad.append(("stats:" + k, "%s: %.10g vs %.10g" % (k, a, b)))
+    if "points" in what:
+        if set(A["points"]) != set(B["points"]):
+            bad.append(("points:set", "adjusted points differ: %s vs %s" % (sorted(set(A["points"]) ^ set(B["points"])), "")))
+        else:
+            for pid, d in A["points"].items():
+                e = B["points"][pid]
+                if set(d) != set(e):
+                    bad.append(("points:components", "point %s has %s vs %s" % (pid, sorted(d), sorted(e))))
+                    continue
+                for k in d:
+                    if abs(d[k] - e[k]) > tol_m:
+                        bad.append(("points:coordinate", "point %s %s: %.9f vs %.9f (diff %.3g m)" % (pid, k, d[k], e[k], d[k] - e[k])))
+    if "obs" in what:
+        if set(A["obs"]) != set(B["obs"]):
+            bad.append(("obs:set", "observation sets differ: %s" % sorted(set(A["obs"]) ^ set(B["obs"]), key=str)[:4]))
+        else:
+            for k, la in A["obs"].items():
+                lb = B["obs"][k]
+                if len(la) != len(lb):
+                    bad.append(("obs:multiplicity", "%s: %d vs %d" % (k, len(la), len(lb))))
+                    continue
+                for (ra, sa, qa, fa), (rb, sb, qb, fb) in zip(la, lb):
+                    # residuals in mm/cc: 1e-7 m = 1e-4 mm; angular: printed with 16 decimals of gon
+                    if abs(ra - rb) > 1e-3 + rel * max(abs(ra), abs(rb)):
+                        bad.append(("obs:residual:" + k[0], "%s residual %.6f vs %.6f" % (k, ra, rb), k))
+                    if sa is not None and sb is not None and abs(sa - sb) > 1e-6 + rel * max(abs(sa), abs(sb)):
+                        bad.append(("obs:stdev:" + k[0], "%s stdev %.9g vs %.9g" % (k, sa, sb), k))
+                    if qa is not None and qb is not None and abs(qa - qb) > 2e-3:
+                        bad.append(("obs:qrr:" + k[0], "%s qrr %.3f vs %.3f" % (k, qa, qb), k))
+                    if fa is not None and fb is not None and abs(fa - fb) > 2e-3 + 1e-6 * max(abs(fa), abs(fb)):
+                        bad.append(("obs:f:" + k[0], "%s f %.3f vs %.3f" % (k, fa, fb), k))
+    if "ellipses" in what:
+        for pid, (a, b, az) in A["ellipses"].items():
+            if pid not in B["ellipses"]:
+                bad.append(("ellipses:set", "no ellipse for %s" % pid))
+                continue
+            a2, b2, az2 = B["ellipses"][pid]
+            sc = max(a, a2, 1e-12)
+            if abs(a - a2) > 1e-6 * sc + 1e-9 or abs(b - b2) > 1e-6 * sc + 1e-7:
+                bad.append(("ellipses:axes", "%s axes (%.9g, %.9g) vs (%.9g, %.9g)" % (pid, a, b, a2, b2)))
+            elif a - b > 1e-3 * sc:          # azimuth is defined only for a non-circular ellipse
+                d = abs((az - az2 + 100.0) % 200.0 - 100.0)
+                if d > 1e-4 * sc / max(a - b, 1e-12) + 1e-6:
+                    bad.append(("ellipses:azimuth", "%s major-axis azimuth %.6f vs %.6f gon" % (pid, az, az2)))
+    if "cov" in what:
+        keys = set(A["cov"]) & set(B["cov"])
+        if A["cov"] and B["cov"] and not keys:
+            bad.append(("cov:set", "no common covariance entries"))
+        scale = max([abs(v) for v in A["cov"].values()] + [1e-300])
+        for k in keys:
+            a, b = A["cov"][k], B["cov"][k]
+            # 8 significant digits printed per entry
+            if abs(a - b) > 2e-7 * max(abs(a), abs(b)) + rel * scale:
+                bad.append(("cov:value", "cov%s %.9g vs %.9g" % (k, a, b)))
+    return [b if len(b) == 3 else (b[0], b[1], None) for b in bad]
+
+
+def correlated_obs_keys(net):
+    """identity keys (as used by physical_result) of observations that sit in a cluster with a non-diagonal
+    covariance matrix"""
+    out = set()
+    for cl in net.clusters:
+        if cl.cov is None:
+            continue
+        C = np.array(cl.cov["C"])
+        if not np.any(C - np.diag(np.diag(C))):
+            continue
+        for o in cl.obs:
+            tag = OBS_TAG[o.kind]
+            if o.kind == "angle":
+                out.add(("angle", o.frm, o.bs, o.fs))
+            elif o.kind == "distance":
+                out.add(("distance",) + tuple(sorted((str(o.frm), str(o.to)))))
+            else:
+                out.add((tag, o.frm, o.to))
+        for v in cl.vecs:
+            for ax in "ENH":
+                out.add(("vec", v[0], v[1], ax))
+        for c in cl.cpoints:
+            for ax in "ENH":
+                out.add(("coord", c[0], ax))
+    return out
